@@ -1,4 +1,4 @@
-CONSTANTS MaxV = 5  Deep = {"val", "key", "nested", "two", "defn"}  Fixed = TRUE
+CONSTANTS MaxV = 6  Deep = {"val", "key"}  Fixed = TRUE
   Shapes = {"val", "key", "nested", "two", "defn"}
   Tails <- StdTails
 INIT Init
